@@ -42,6 +42,11 @@ claim("C20",
       "Bounds in the evidence assumptions; persistence of database placement is covered by the persistence properties.",
       "DESIGN.md C20")
 
+claim("C08",
+      "Heap steps (Update/Delete/Pop) from an arbitrary well-formed LFU/LRU heap keep the heap invariant, index fields and key set consistent and pop the policy's extreme element; under noeviction a write is refused exactly at or above the limit and changes nothing; one run of the real eviction loop under each evicting policy removes keys only at or above the limit, only from the candidate set, in LFU order, until usage is under the limit or no candidate is left, removes evicted keys from store, volatile index and both caches, never touches another database, never panics and terminates; the bookkeeping filter admits exactly the policy's candidates.",
+      "Known finding: the LRU heap pops the most recently used entry (pinned by Test_CacheLRU). Bounds in the evidence assumptions.",
+      "DESIGN.md C08")
+
 # every property without a claim is listed as not applicable (yet) with its reason
 NA_REASONS = {}
 for n in range(1, 21):
